@@ -321,8 +321,8 @@ func (s *srvConn) serve(cfg *negCfg, r *negRec) {
 			}
 			r.ResumeSeen = append(r.ResumeSeen, u.raw)
 			prev := attr(u.raw, "previd")
-			a := cfg.pick("resume", "resumed-same", "resumed-other", "failed", "failed-known-condition", "unexpected", "close")
-			r.answer("resume", a, a == "resumed-same" || a == "failed" || a == "failed-known-condition")
+			a := cfg.pick("resume", "resumed-same", "resumed-other", "failed", "failed-known-condition", "failed-no-condition", "unexpected", "close")
+			r.answer("resume", a, a == "resumed-same" || strings.HasPrefix(a, "failed"))
 			switch a {
 			case "resumed-same":
 				s.send(fmt.Sprintf("<resumed xmlns='%s' previd='%s' h='0'/>", nsSM, prev))
@@ -337,6 +337,9 @@ func (s *srvConn) serve(cfg *negCfg, r *negRec) {
 			case "failed":
 				// a refusal is a legal outcome: the client must now bind a fresh session
 				s.send(fmt.Sprintf("<failed xmlns='%s'><item-not-found xmlns='urn:ietf:params:xml:ns:xmpp-stanzas'/></failed>", nsSM))
+				continue
+			case "failed-no-condition":
+				s.send(fmt.Sprintf("<failed xmlns='%s' h='0'/>", nsSM))
 				continue
 			case "failed-known-condition":
 				s.send(fmt.Sprintf("<failed xmlns='%s'><unexpected-request xmlns='urn:ietf:params:xml:ns:xmpp-stanzas'/></failed>", nsSM))
@@ -424,7 +427,7 @@ func (s *srvConn) serve(cfg *negCfg, r *negRec) {
 				r.Order = append(r.Order, "enable before the mandatory session request")
 			}
 			r.EnableSeen++
-			a := cfg.pick("enable", "enabled-resume-true", "enabled-resume-false", "enabled-no-resume", "failed", "unexpected", "close")
+			a := cfg.pick("enable", "enabled-resume-true", "enabled-resume-false", "enabled-no-resume", "failed", "failed-no-condition", "unexpected", "close")
 			ok := strings.HasPrefix(a, "enabled")
 			r.answer("enable", a, ok)
 			r.EnableAnswer = a
@@ -441,6 +444,8 @@ func (s *srvConn) serve(cfg *negCfg, r *negRec) {
 				s.send(fmt.Sprintf("<enabled xmlns='%s'/>", nsSM))
 			case "failed":
 				s.send(fmt.Sprintf("<failed xmlns='%s'><unexpected-request xmlns='urn:ietf:params:xml:ns:xmpp-stanzas'/></failed>", nsSM))
+			case "failed-no-condition":
+				s.send(fmt.Sprintf("<failed xmlns='%s'/>", nsSM))
 			case "unexpected":
 				s.send("<message xmlns='jabber:client'><body>x</body></message>")
 			case "close":
